@@ -1110,7 +1110,10 @@ def run(ctx):
                 "shared / aliased other parameters, real fits through GridSearch.fit/_fit with a permuted completion order and a "
                 "likelihood that is a function of the cell, GridSearchResult accessors, ResultBuilder arrival orders with re-delivery, "
                 "sensitivity lattices / unit cells with limit_scale / sorting / real Sensitivity.run with perturb priors created out "
-                "of path order); a case is non-trivial when n >= 2 (count: n >= 3) and, for ordered kinds, the completion order "
+                "of path order, and HISTORIES: one GridSearch / Sensitivity object used for several make_lists / make_arguments / "
+                "model_mappers / make_jobs / fit (resp. _lists / _perturb_models / run) calls with number_of_steps, the number of grid "
+                "priors, their limits, limit_scale and the model changed between uses -- every use is checked as a single use, against "
+                "a fresh object and against the state-machine model); a case is non-trivial when n >= 2 (count: n >= 3) and, for ordered kinds, the completion order "
                 "differs from job order (or is left to the real process pool); distinct = distinct abstract input")
     ctx.trusted = [
         "Coq 8.16.1 kernel incl. vm_compute; primitive floats (PrimFloat, Uint63) are kernel primitives",
@@ -1237,8 +1240,11 @@ MANIFEST = {
             "disjoint cells; reported limits/centres are those of the cell fitted; results keyed by job number for every completion "
             "order incl. re-delivery (latest wins) and paths pairing; sensitivity counts, positional sorting, unit cells for "
             "limit_scale = 1 equal to the grid-search cells and bounded for every limit_scale >= 0; shape under a 1/2-accurate root; "
-            "binary64 count on 1..131072 by a kernel-checked sweep) plus bit-exact vm_compute correspondence of the model with the "
-            "running code and a direct property oracle on every generated case, where the likelihood of every fit is a function of "
+            "binary64 count on 1..131072 by a kernel-checked sweep; the grid-search / sensitivity OBJECT as a state machine with an "
+            "explicit lattice cache: every answer of every history of uses equals a fresh object's answer for the current "
+            "(n, d, limits) for the code's policy (no cache) and for any sound cache, refuted for a cache keyed by d alone) plus bit-exact vm_compute correspondence of the model with the "
+            "running code and a direct property oracle on every generated case (single uses and histories of one reused object with attributes "
+            "changed between uses, each use also compared with a fresh object), where the likelihood of every fit is a function of "
             "its cell so that every per-cell list (samples, log_likelihoods, native, log_evidences, attribute_grid, builder results "
             "and paths, csv columns by header, sensitivity base/perturbed samples, folder labels) is tied to cell k",
     "note": "Trusted: Coq kernel + vm_compute, primitive floats, the translator pyexpr2coq.py, the correspondence harness; libm pow is an "
@@ -1246,7 +1252,10 @@ MANIFEST = {
             "compared bit-for-bit by correspondence only); UniformPrior.value_for is modelled as lo+u*(hi-lo) without its 14-decimal "
             "rounding; the order of the grid dimensions is the library's sort_priors_alphabetically (taken as given); 'other parameters "
             "keep their priors' is checked by the oracle only (object identity, sharing structure), not modelled in Coq; completion orders "
-            "are steered through a permuting job runner, the real process pool runs in two thorough-tier cases only. Three genuine defects found by this check (sensitivity csv/folder labels in attribute order; grid cells narrower "
+            "are steered through a permuting job runner, the real process pool runs in two thorough-tier cases only; in histories the "
+            "output folders of earlier uses are removed between uses (resumption of finished cells is not C16's subject), limits change "
+            "by replacing prior objects (assigning to a prior's limit attributes leaves its message stale and is not generated), and "
+            "real Sensitivity.run steps enter the state-machine correspondence only through their stateless cases. Three genuine defects found by this check (sensitivity csv/folder labels in attribute order; grid cells narrower "
             "than 0.005 sharing a folder; Prior.with_limits keeping the old message) were repaired in /repo (c25e54b, cc931f4, d755794) and are "
             "pinned by corpus/C16 regression obligations; no known finding is open.",
     "technique": "machine-checked proof in Coq (translator-regenerated model) + vm_compute correspondence",
